@@ -3,11 +3,14 @@ package c14
 import (
 	"bytes"
 	"fmt"
+	"math/big"
+	"sync"
 	"testing"
 
 	"github.com/dominant-strategies/go-quai/common"
 	"github.com/dominant-strategies/go-quai/core/types"
 	"github.com/dominant-strategies/go-quai/rlp"
+	"github.com/dominant-strategies/go-quai/trie"
 	"google.golang.org/protobuf/proto"
 	"pgregory.net/rapid"
 
@@ -206,6 +209,15 @@ func rlpPath(c *ctx, g *gen.Tags, x, y *types.Transaction, kind string, compress
 		return
 	}
 	c.note("rlp", hx(rb1))
+	// the returned bytes belong to the caller: later encodings of other objects (which share the
+	// package's buffer pool) must not change them
+	if keep := append([]byte(nil), rb1...); true {
+		disturbEncoders()
+		if !bytes.Equal(rb1, keep) {
+			c.fail("C14/tx/rlp/encoding-not-stable/MarshalBinary", "the bytes returned by MarshalBinary changed while other objects were encoded: %x -> %x", keep, rb1)
+			rb1 = keep
+		}
+	}
 	if rb1b, _ := x.MarshalBinary(); !bytes.Equal(rb1, rb1b) {
 		c.fail("C14/tx/rlp/nondeterministic", "MarshalBinary twice: %x vs %x", rb1, rb1b)
 	}
@@ -254,6 +266,13 @@ func rlpPath(c *ctx, g *gen.Tags, x, y *types.Transaction, kind string, compress
 		if err != nil {
 			c.fail("C14/tx/rlp/etx-queue-encode", "rlp.EncodeToBytes(etx): %v", err)
 			return
+		}
+		if keep := append([]byte(nil), enc...); true {
+			disturbEncoders()
+			if !bytes.Equal(enc, keep) {
+				c.fail("C14/tx/rlp/encoding-not-stable/EncodeRLP", "the bytes returned by rlp.EncodeToBytes(tx) changed while other objects were encoded: %x -> %x", keep, enc)
+				enc = keep
+			}
 		}
 		q := new(types.Transaction)
 		if err := rlp.DecodeBytes(enc, q); err != nil {
@@ -316,4 +335,34 @@ func jsonPathTx(c *ctx, g *gen.Tags, x *types.Transaction, kind string, compress
 	if jb3, err := z.MarshalJSON(); err != nil || !bytes.Equal(jb, jb3) {
 		c.fail("C14/tx/json/reencode/"+kind, "JSON re-encoding differs: %s vs %s (%v)", jb3, jb, err)
 	}
+}
+
+var (
+	decoyOnce sync.Once
+	decoyTxs  types.Transactions
+	decoyRcs  types.Receipts
+)
+
+// disturbEncoders encodes a few fixed, unrelated objects through every encoder that draws on the
+// shared buffer pool of core/types (typed transaction and receipt encodings, trie hashing of
+// lists) - what a node does all the time between producing an encoding and using it.
+func disturbEncoders() {
+	decoyOnce.Do(func() {
+		loc := common.Location{0, 0}
+		for i := 0; i < 3; i++ {
+			to := common.BytesToAddress([]byte{0, byte(0x10 + i), 3, 4, 5, 6, 7, 8, 9, 10, 11, 12, 13, 14, 15, 16, 17, 18, 19, byte(i)}, loc)
+			decoyTxs = append(decoyTxs, types.NewTx(&types.ExternalTx{OriginatingTxHash: common.BytesToHash([]byte{0xde, 0xc0, byte(i)}), ETXIndex: uint16(900 + i), Gas: 77000 + uint64(i), To: &to,
+				Value: big.NewInt(int64(0x5eed0000 + i)), Data: bytes.Repeat([]byte{0xd0 + byte(i)}, 40+i), Sender: to, EtxType: 0}))
+			decoyRcs = append(decoyRcs, &types.Receipt{Type: types.ExternalTxType, Status: 1, CumulativeGasUsed: 21000 * uint64(i+1), Logs: []*types.Log{}})
+		}
+	})
+	for _, d := range decoyTxs {
+		d.MarshalBinary()
+		rlp.EncodeToBytes(d)
+	}
+	for _, r := range decoyRcs {
+		rlp.EncodeToBytes(r)
+	}
+	types.DeriveSha(decoyTxs, trie.NewStackTrie(nil))
+	types.DeriveSha(decoyRcs, trie.NewStackTrie(nil))
 }
